@@ -63,7 +63,9 @@ def connect(t):
 
 
 def run(d, conns, steps):
-    socks = [connect(t) for t in conns]
+    # connections are made in the order of their first step, right before it (the simulated executor does the same: the
+    # order of the daemon's peer list is part of the script, not of the kernel's choices)
+    socks = [None for t in conns]
     decs = [wire.WsDecoder() if t == "ws" else wire.RawDecoder() for t in conns]
     outputs = [[] for _ in conns]
     fwd = [[] for _ in conns]
@@ -92,7 +94,7 @@ def run(d, conns, steps):
     def fence():
         """returns when everything sent so far was processed and everything it produced was received"""
         for i, s in enumerate(socks):
-            if closed[i] or not upgraded[i] or halfclosed[i]:
+            if s is None or closed[i] or not upgraded[i] or halfclosed[i]:
                 continue
             fencec[0] += 1
             fid = "fence-%d" % fencec[0]
@@ -117,12 +119,13 @@ def run(d, conns, steps):
 
     halfclosed = [False] * len(conns)
     replied = [0] * len(conns)
-    # wait until the daemon answered on every plain connection once (it is up)
-    fence()
     for st in steps:
         c = st["c"]
         if closed[c] or halfclosed[c]:
             continue
+        if socks[c] is None:
+            socks[c] = connect(conns[c])
+            fence()
         if st.get("eof"):
             try:
                 socks[c].shutdown(socket.SHUT_WR)
@@ -170,7 +173,11 @@ def run(d, conns, steps):
                 else:
                     feed(c, data)
         fence()
-    for i, s in enumerate(socks):
+    for i in range(len(socks)):
+        if socks[i] is None:
+            socks[i] = connect(conns[i])
+            fence()
+        s = socks[i]
         if not closed[i] and not halfclosed[i]:
             try:
                 s.shutdown(socket.SHUT_WR)
